@@ -1,4 +1,5 @@
 //! Reference implementations owned by the harness (oracles).
 pub mod blake2s;
 pub mod keccak;
+pub mod lms;
 pub mod sha2;
